@@ -113,9 +113,26 @@ def run(ctx):
                 kw["return_path"] = return_path
                 if ball_depth is not None:
                     kw["bfs_result_for_mitm"] = graph.bfs(max_diameter=ball_depth, return_all_hashes=True)
+            # history on the SAME object: an earlier search from another start state with the same options must leave nothing behind
+            warm = None
+            if rng.random() < 0.5:
+                warm = list(rng.choice(verts))
+                try:
+                    graph.beam_search(**dict(kw, start_state=warm))
+                except Exception:  # pylint: disable=broad-except
+                    pass
+                ctx.count("searches_on_a_used_object")
+            # a ball computed around ANOTHER central state (same generators): it must be refused, or at least never make the search report a walk that does not exist
+            foreign = None
+            if ball_depth is not None and ic and rng.random() < 0.5 and len(verts) > 1:
+                return_path = False
+                kw["return_path"] = False
+                foreign = list(rng.choice([v for v in verts if tuple(v) != tuple(gd["central"])]))
+                kw["bfs_result_for_mitm"] = G.make_graph(dict(gd, central=foreign), cfgd).bfs(max_diameter=ball_depth, return_all_hashes=True)
+                ctx.count("foreign_ball_cases")
             rec.clear()
             case = {"graph": gd, "config": cfgd, "start": start, "advanced": advanced, "width": width, "steps": steps, "history": hist,
-                    "return_path": return_path, "ball_depth": ball_depth, "score": sk}
+                    "return_path": return_path, "ball_depth": ball_depth, "score": sk, "warmup_start": warm, "foreign_ball_central": foreign}
             try:
                 r = graph.beam_search(**kw)
                 res = (bool(r.path_found), int(r.path_length), None if r.path is None else [int(i) for i in r.path])
@@ -143,6 +160,13 @@ def run(ctx):
             sels = [(sc, idx[:width]) for sc, idx in rec]
             dropped = any(len(sc) > width for sc, _ in rec)
             d = dist_from_start.get(tuple(gd["central"]))
+            if foreign is not None:
+                # oracle only (the model builds its own ball): a refusal is fine, a reported success must still be a real walk to THIS graph's central state
+                if res[0] != "err":
+                    msg, cls = check_beam(gd, start, res, dist_from_start, False, steps, ic, True, return_path)
+                    if msg:
+                        ctx.violation("property_fails", "with a ball computed around another central state: " + msg, case, True)
+                continue
             msg, cls = check_beam(gd, start, res, dist_from_start, unpruned, steps, ic, ball_depth is not None, return_path)
             case["class"] = cls
             ctx.case_seen(case, dropped or (unpruned and d is not None and d >= 2))
@@ -192,6 +216,14 @@ def replay(ctx, obj):
             kw["return_path"] = case["return_path"]
             if case.get("ball_depth") is not None:
                 kw["bfs_result_for_mitm"] = graph.bfs(max_diameter=case["ball_depth"], return_all_hashes=True)
+                if case.get("foreign_ball_central") is not None:
+                    kw["bfs_result_for_mitm"] = G.make_graph(dict(gd, central=case["foreign_ball_central"]), case["config"]).bfs(
+                        max_diameter=case["ball_depth"], return_all_hashes=True)
+        if case.get("warmup_start") is not None:
+            try:
+                graph.beam_search(**dict(kw, start_state=case["warmup_start"]))
+            except Exception:  # pylint: disable=broad-except
+                pass
         try:
             r = graph.beam_search(**kw)
             res = (bool(r.path_found), int(r.path_length), None if r.path is None else [int(i) for i in r.path])
